@@ -13,6 +13,7 @@ pub mod c10;
 pub mod c11;
 pub mod c12;
 pub mod c16;
+pub mod c17;
 pub mod c19;
 pub mod srvchecks;
 
@@ -40,6 +41,7 @@ pub fn all() -> Vec<CheckDef> {
         c12::def(),
         srvchecks::def_c15(),
         c16::def(),
+        c17::def(),
         c19::def(),
     ]
 }
